@@ -20,6 +20,7 @@ import (
 	"bytes"
 	"encoding/binary"
 	"errors"
+	"fmt"
 	"io"
 )
 
@@ -144,7 +145,29 @@ func (r *ComDoc) readSAT() error {
 		}
 		position += count
 	}
+	if err := checkLinks(sat); err != nil {
+		return err
+	}
 	r.SAT = sat
+	return nil
+}
+
+// Check that no entry of an allocation table points past the end of the
+// table, so that a chain can be followed without leaving it
+func checkLinks(table []SecID) error {
+	for i, next := range table {
+		if int64(next) >= int64(len(table)) {
+			return fmt.Errorf("sector %d is chained to sector %d but the allocation table has only %d entries", i, next, len(table))
+		}
+	}
+	return nil
+}
+
+// Check the first sector of a chain against the table the chain is threaded through
+func checkChainStart(table []SecID, sector SecID) error {
+	if int64(sector) >= int64(len(table)) {
+		return fmt.Errorf("chain starts at sector %d but the allocation table has only %d entries", sector, len(table))
+	}
 	return nil
 }
 
